@@ -272,6 +272,41 @@ theorem generic_settings (opts : List OptInst) (c : Config) (hv : AllValid opts)
         fillLogger .generic_Driver_Logger (afterPass .generic_Driver opts c) .generic_Driver_Logger :=
   constructGeneric_field c hv
 
+/-- the declarative reading of each constructor: every field computed on its own from the options
+that name it (see `specGeneric`, `specNetwork`, `specNetconf`) -/
+def specConfig (k : Ctor) (opts : List OptInst) (c : Config) : Except Err Config :=
+  match k with
+  | .generic => .ok (specGeneric opts c)
+  | .network => specNetwork opts c
+  | .netconf => .ok (specNetconf opts c)
+  | .logging => .ok (afterPass .logging_Instance opts c)
+
+/-- the options a constructor really applies (NETCONF adds its connection flag) -/
+def effective (k : Ctor) (opts : List OptInst) : List OptInst :=
+  match k with
+  | .netconf => opts ++ [netconfConnectionOpt]
+  | _ => opts
+
+/-- All four constructors, all settings at once, any option list of any length: when no option
+fails, the driver that comes back is exactly the declarative one — every field of every object
+that is built holds what the options naming it leave there in list order starting from the
+default (last replacement wins, appends accumulate), every other field keeps its default, the
+network driver derives its prompt pattern from the privilege levels (and demands them), the
+NETCONF driver takes transport type and logger from the generic driver and uses the NETCONF
+delimiter as prompt. -/
+theorem construct_eq_spec (k : Ctor) (opts : List OptInst) (c : Config)
+    (hv : AllValid (effective k opts)) : construct k opts c = specConfig k opts c := by
+  cases k with
+  | generic => exact constructGeneric_eq_spec c hv
+  | network => exact constructNetwork_eq_spec c hv
+  | netconf => exact constructNetconf_eq_spec c hv
+  | logging => exact pass_valid c hv
+
+example : AllValid (effective .netconf [{ opt := .WithPort, args := [[[50,50]]] }]) := by
+  intro o ho
+  simp [effective, netconfConnectionOpt] at ho
+  rcases ho with h | h <;> subst h <;> decide
+
 /-! ## `user_overrides_platform` -/
 
 /-- Platform options first, user options after: for every field, the user's options act on what
